@@ -90,7 +90,7 @@ def part_perm(s):
     p1 = builders.build_aero([surfs[k] for k in s["perm"]], fl)
     p1.run_model()
     viol, val = [], 0
-    Fsc = max(np.abs(p0["ap.aero_states.%s_sec_forces" % sf["name"]]).max() for sf in surfs)
+    Fsc = max(max(np.abs(p0["ap.aero_states.%s_sec_forces" % sf["name"]]).max() for sf in surfs), gen.force_floor(1.1, 60.0, [sf["mesh"] for sf in surfs]))
     wh = dict(part="perm", n=s["n"], sym=s["sym"])
 
     def cmp(name, a, b, sc):
@@ -129,7 +129,7 @@ def part_split(s):
     F0 = p0["ap.aero_states.w_sec_forces"]
     F1 = np.concatenate([p1["ap.aero_states.a_sec_forces"], p1["ap.aero_states.b_sec_forces"]], axis=1)
     viol, val = [], 0
-    Fsc = np.abs(F0).max()
+    Fsc = max(np.abs(F0).max(), gen.force_floor(1.1, 60.0, [m]))
     wh = dict(part="split")
     e = np.abs(F1 - F0).max() / max(Fsc, 1e-300)
     val += 1
@@ -214,7 +214,7 @@ def part_wrap(s):
     p.run_model()
     viol, val = [], 0
     wh = dict(part="wrap", comp=s["comp"], n=s["n"])
-    Fsc = max(np.abs(p0["ap.aero_states.%s_sec_forces" % sf["name"]]).max() for sf in surfs)
+    Fsc = max(max(np.abs(p0["ap.aero_states.%s_sec_forces" % sf["name"]]).max() for sf in surfs), gen.force_floor(1.1, 60.0, [sf["mesh"] for sf in surfs]))
 
     def cmp(name, a, b, sc):
         nonlocal val
